@@ -297,6 +297,9 @@ func (ep *Endpoint) Write(b []byte) (Result, int, int) {
 	id := ep.bracket
 	ep.mu.Unlock()
 	ep.Net.Bracket(ep.Side, id)
+	// An established connection lives longer than any handshake timeout: if a write deadline is still armed
+	// on the transport's connection now, virtual time has passed it (a stale handshake timer).
+	ep.Net.ExpireWriteDeadline(ep.Side)
 	var n int
 	// the application owns its buffer again as soon as Write returns and re-uses it (io.Copy does): the
 	// transport is handed a scratch copy that is overwritten after the call
